@@ -1,10 +1,12 @@
 use crate::report::Report;
 use crate::Ctx;
 
+pub mod c06;
 pub mod c20;
 
 pub fn run(prop: &str, ctx: &mut Ctx) -> Option<Report> {
     match prop {
+        "C06" => Some(c06::run(ctx)),
         "C20" => Some(c20::run(ctx)),
         _ => None,
     }
